@@ -193,6 +193,19 @@ def run_one(ctx, label, img, meta, ops, mnt):
         d = history.diff_trees(w, rw, "pyfatfs", "reference")
         if d:
             ctx.violation(f"{label}: final tree differs from the reference: {d[0]}", "final-tree", dict(rep, diffs=d[:8]))
+        # "never refused for lack of space while clearly enough clusters are free": after the history, one file of (free - 3) clusters
+        free, bpc = free_clusters(ir)
+        if 6 <= free <= 4000 and not d:
+            r1, _ = ir.op(["makedir", "/fill dir"])
+            r2, _ = ir.op(["writebytes", "/fill dir/ALL.BIN", (b"\x5a" * ((free - 4) * bpc)).hex()])
+            ctx.dist["fill-after-history"] += 1
+            if r2[0] == "err" and r2[1] == "ENOSPC" and r1[0] == "ok":
+                ctx.violation(f"{label}: after the history {free} clusters are free, but a file of {free - 4} clusters is refused with ENOSPC",
+                              "spurious-enospc:fill", dict(rep, free_clusters=free))
+            elif r2[0] == "ok":
+                r3, _ = ir.op(["readbytes", "/fill dir/ALL.BIN"])
+                if r3[0] != "ok" or r3[1] != b"\x5a" * ((free - 4) * bpc):
+                    ctx.violation(f"{label}: the file filling the volume does not read back", "fill-readback", rep)
         if len(kinds) >= 6 and nerr >= 1:
             ctx.nontrivial.add((label, tuple(o[0] for o in ops)))
         ctx.sample(dict(volume=label, ops=[o[:2] for o in ops[:10]], n_ops=len(ops), errors=nerr))
@@ -203,11 +216,12 @@ def run_one(ctx, label, img, meta, ops, mnt):
 
 def names_ok_pool(rng, enc):
     pool = [n for n in gen.name_pool(rng) if not _hist.quarantined_name(n, enc)]
-    seen, out = set(), []
+    seen, out = {}, []
     for n in pool:
-        if n.upper() in seen:
+        u = n.upper()
+        if u in seen and not (n != u and seen[u] != u):      # case variants only if BOTH spellings need a long name
             continue
-        seen.add(n.upper())
+        seen.setdefault(u, n)
         out.append(n)
     return out
 
